@@ -10,7 +10,8 @@ A scenario is a python object with callbacks; every call is appended to env.log.
 Contracts assumed (part of every claim that uses the stubs):
   * sgio.execute raises CheckConditionError exactly when the target returned CHECK CONDITION,
     carrying the sense bytes; other failures raise UnspecifiedError/OSError; it never
-    returns normally for a non-GOOD status.
+    returns normally for a non-GOOD status.  On success it returns the residual count of the
+    transfer -- an arbitrary non-negative integer here (ENV.sgio_return, symbolic in C03/C13).
   * libiscsi sets task.status to the SAM status byte; task.raw_sense exists when status
     is CHECK CONDITION (a second configuration without it is exercised separately).
 """
@@ -63,6 +64,7 @@ class Env:
         self.opens = []
         self.lun = 0            # LUN the URL stub reports (may be a solver variable)
         self.open_error = None  # exception the next open() raises (consumed), e.g. PermissionError
+        self.sgio_return = 0    # what sgio.execute returns on success (cython-sgio: the residual count; may be symbolic)
 
     # ---- filesystem
     def open(self, name, mode="r", buffering=-1, **kw):
@@ -90,8 +92,9 @@ class Env:
         self.sgio_calls.append(call)
         self.log.append(("sgio.execute", call))
         if self.scenario is not None and hasattr(self.scenario, "sgio"):
-            return self.scenario.sgio(self, call)
-        return 0
+            r = self.scenario.sgio(self, call)
+            return self.sgio_return if (r is None or (type(r) is int and r == 0)) else r
+        return self.sgio_return
 
     # ---- iscsi
     def iscsi_command(self, context, lun, task, dataout, datain):
